@@ -16,6 +16,7 @@ package main
 
 import (
 	"context"
+	"encoding/base64"
 	"encoding/binary"
 	"fmt"
 	"net"
@@ -30,6 +31,7 @@ import (
 	"github.com/miekg/dns"
 	"github.com/semihalev/sdns/config"
 	icache "github.com/semihalev/sdns/internal/cache"
+	"github.com/semihalev/sdns/internal/dnsname"
 	"github.com/semihalev/sdns/internal/mock"
 	"github.com/semihalev/sdns/internal/verif/vlib"
 	"github.com/semihalev/sdns/middleware"
@@ -368,6 +370,11 @@ func reqECS(m *dns.Msg) *dns.EDNS0_SUBNET {
 }
 
 func (u *upstream) answer(req *dns.Msg, scopeBits int) *dns.Msg {
+	return u.answerWith(req, &ansSpec{scopeBits: scopeBits})
+}
+
+func (u *upstream) answerWith(req *dns.Msg, ans *ansSpec) *dns.Msg {
+	scopeBits := ans.scopeBits
 	rec := askedRec{id: u.nextID, q: req.Question[0], cd: req.CheckingDisabled, ecs: reqECS(req)}
 	u.nextID++
 	u.asked = append(u.asked, rec)
@@ -378,9 +385,19 @@ func (u *upstream) answer(req *dns.Msg, scopeBits int) *dns.Msg {
 	if scopeBits >= 0 && rec.ecs != nil {
 		o := new(dns.OPT)
 		o.Hdr.Name, o.Hdr.Rrtype = ".", dns.TypeOPT
-		o.Option = []dns.EDNS0{&dns.EDNS0_SUBNET{Code: dns.EDNS0SUBNET, Family: rec.ecs.Family,
-			SourceNetmask: rec.ecs.SourceNetmask, SourceScope: uint8(scopeBits), Address: rec.ecs.Address}}
+		sub := &dns.EDNS0_SUBNET{Code: dns.EDNS0SUBNET, Family: rec.ecs.Family,
+			SourceNetmask: rec.ecs.SourceNetmask, SourceScope: uint8(scopeBits), Address: rec.ecs.Address}
+		if ans.echo.IsValid() {
+			sub.Family, sub.Address = 1, net.IP(ans.echo.AsSlice())
+			if ans.echo.Is6() {
+				sub.Family = 2
+			}
+		}
+		o.Option = []dns.EDNS0{sub}
 		resp.Extra = []dns.RR{o}
+	}
+	if ans.flipCD {
+		resp.CheckingDisabled = !req.CheckingDisabled
 	}
 	return resp
 }
@@ -403,6 +420,13 @@ func newPipe(ecs bool, pcf pipeCfg) {
 			MinScopeV4: uint8(pcf.m4), MinScopeV6: uint8(pcf.m6)}
 	}
 	pc = mcache.New(cfg)
+	// the internal sub-pipeline the decoded CNAME chase queries: the same cache, then a miss
+	reg := middleware.NewRegistry()
+	reg.Register("cache", func(*config.Config) middleware.Handler { return pc })
+	reg.Register("submiss", func(*config.Config) middleware.Handler {
+		return middleware.HandlerFunc(func(_ context.Context, ch *middleware.Chain) { ch.Cancel() })
+	})
+	pc.SetQueryer(middleware.NewPipelineQueryer(reg.Build(cfg)))
 	mcache.VerifC03SyncPrefetch(pc)
 	up = &upstream{}
 	pc.SetPrefetchQueryer(up)
@@ -430,7 +454,14 @@ func markerRRs(owner string, qtype, class uint16, id int, alias string) []dns.RR
 		ip := net.ParseIP("2001:db8::")
 		ip[13], ip[14], ip[15] = byte(id>>16), byte(id>>8), byte(id)
 		return []dns.RR{&dns.AAAA{Hdr: hdr(dns.TypeAAAA), AAAA: ip}}
+	case dns.TypeDS:
+		return []dns.RR{&dns.DS{Hdr: hdr(dns.TypeDS), KeyTag: uint16(id), Algorithm: 13, DigestType: 2,
+			Digest: fmt.Sprintf("%08x%056x", id, 0)}}
+	case dns.TypeDNSKEY:
+		return []dns.RR{&dns.DNSKEY{Hdr: hdr(dns.TypeDNSKEY), Flags: 256, Protocol: 3, Algorithm: 13,
+			PublicKey: base64.StdEncoding.EncodeToString([]byte(fmt.Sprintf("m%d", id)))}}
 	}
+	// any other type: the marker travels in a TXT record owned by the question name
 	return []dns.RR{txt}
 }
 
@@ -447,6 +478,16 @@ func markerIDs(m *dns.Msg) []int {
 		case *dns.AAAA:
 			ip := r.AAAA.To16()
 			ids = append(ids, int(ip[13])<<16|int(ip[14])<<8|int(ip[15]))
+		case *dns.DS:
+			if v, err := strconv.ParseUint(r.Digest[:8], 16, 32); err == nil {
+				ids = append(ids, int(v))
+			}
+		case *dns.DNSKEY:
+			if b, err := base64.StdEncoding.DecodeString(r.PublicKey); err == nil && len(b) > 1 && b[0] == 'm' {
+				if v, err := strconv.Atoi(string(b[1:])); err == nil {
+					ids = append(ids, v)
+				}
+			}
 		case *dns.TXT:
 			if len(r.Txt) == 1 && strings.HasPrefix(r.Txt[0], "m") {
 				if v, err := strconv.Atoi(r.Txt[0][1:]); err == nil {
@@ -539,6 +580,14 @@ func cutProof(denied string, class uint16, id int) *dns.Msg {
 type reqSpec struct {
 	id     ident
 	client netip.Prefix // the ECS option the client sends (invalid = none)
+	tcp    bool         // stream transport instead of UDP
+	do     bool         // the client sets DO
+}
+
+// flavour: "-" | tcp | do | tcp+do  (transport and DNSSEC-OK bit: neither may change WHICH entry answers)
+func (r *reqSpec) flavour(s string) {
+	r.tcp = strings.Contains(s, "tcp")
+	r.do = strings.Contains(s, "do")
 }
 
 func ecsOption(p netip.Prefix) *dns.EDNS0_SUBNET {
@@ -572,7 +621,11 @@ func rawQuery(r reqSpec) []byte {
 	b = append(b, 0)
 	b = binary.BigEndian.AppendUint16(b, dns.TypeOPT)
 	b = binary.BigEndian.AppendUint16(b, 4096)
-	b = append(b, 0, 0, 0, 0)
+	if r.do {
+		b = append(b, 0, 0, 0x80, 0)
+	} else {
+		b = append(b, 0, 0, 0, 0)
+	}
 	if r.client.IsValid() {
 		a := r.client.Masked().Addr().AsSlice()
 		n := (r.client.Bits() + 7) / 8
@@ -598,7 +651,7 @@ func msgQuery(r reqSpec) *dns.Msg {
 	m.RecursionDesired = true
 	m.CheckingDisabled = r.id.cd
 	m.Question = []dns.Question{r.id.q()}
-	m.SetEdns0(4096, false)
+	m.SetEdns0(4096, r.do)
 	if r.client.IsValid() {
 		opt := m.IsEdns0()
 		opt.Option = append(opt.Option, ecsOption(r.client))
@@ -610,17 +663,23 @@ func msgQuery(r reqSpec) *dns.Msg {
 // ansSpec makes the terminal handler answer (an upstream) instead of only noting the miss.
 type ansSpec struct {
 	id        int
-	scopeBits int // -1: no ECS option in the response
+	scopeBits int        // -1: no ECS option in the response
+	echo      netip.Addr // the ADDRESS (and family) the authority puts in its ECS option; invalid = the one it was sent
+	flipCD    bool       // the reply carries the other CD bit than the request
 }
 
 func serve(route string, r reqSpec, ans *ansSpec) (out string, reply *dns.Msg, via string) {
-	writer := mock.NewWriter("udp", "198.51.100.77:40000")
+	proto := "udp"
+	if r.tcp {
+		proto = "tcp"
+	}
+	writer := mock.NewWriter(proto, "198.51.100.77:40000")
 	reached := false
 	terminal := middleware.HandlerFunc(func(_ context.Context, ch *middleware.Chain) {
 		reached = true
 		if ans != nil {
 			up.nextID = ans.id
-			_ = ch.Writer.WriteMsg(up.answer(ch.Request.Msg(), ans.scopeBits))
+			_ = ch.Writer.WriteMsg(up.answerWith(ch.Request.Msg(), ans))
 		}
 		ch.Cancel()
 	})
@@ -674,12 +733,20 @@ func classify(m *dns.Msg) string {
 		}
 		return "loop"
 	case dns.RcodeNameError:
+		pre := ""
+		if ids := markerIDs(m); len(ids) > 0 { // an alias chain that ended below a denied name
+			s := make([]string, len(ids))
+			for i, v := range ids {
+				s[i] = strconv.Itoa(v)
+			}
+			pre = "hit " + strings.Join(s, ",") + " "
+		}
 		for _, rr := range m.Ns {
 			if soa, ok := rr.(*dns.SOA); ok {
-				return fmt.Sprintf("cut %d", soa.Serial)
+				return fmt.Sprintf("%scut %d", pre, soa.Serial)
 			}
 		}
-		return "cut ?"
+		return pre + "cut ?"
 	case dns.RcodeSuccess:
 		ids := markerIDs(m)
 		s := make([]string, len(ids))
@@ -705,52 +772,64 @@ func judge(entry string, out string, r reqSpec, hasECS bool) string {
 	switch {
 	case out == "miss" || out == "dropped" || out == "ineligible" || out == "loop":
 		return "ok"
-	case strings.HasPrefix(out, "hit"):
-		idsS := strings.TrimSpace(strings.TrimPrefix(out, "hit"))
-		if idsS == "" {
-			return "FAIL sig=" + entry + "/hit/answer-without-stored-entry"
+	case strings.HasPrefix(out, "hit") || strings.HasPrefix(out, "cut"):
+		idsS, cutS := "", ""
+		rest := out
+		if strings.HasPrefix(rest, "hit") {
+			rest = strings.TrimSpace(strings.TrimPrefix(rest, "hit"))
+			idsS, rest, _ = strings.Cut(rest, " ")
+			if idsS == "" {
+				return "FAIL sig=" + entry + "/hit/answer-without-stored-entry"
+			}
+		}
+		if strings.HasPrefix(rest, "cut") {
+			cutS = strings.TrimSpace(strings.TrimPrefix(rest, "cut"))
 		}
 		cur := reqLabels
-		for i, s := range strings.Split(idsS, ",") {
-			e := entries[vlib.Atoi(s)]
-			if e == nil {
-				return "FAIL sig=" + entry + "/hit/unknown-entry id=" + s
-			}
-			hop := ""
-			if i > 0 {
-				hop = "chase-hop-"
-			}
-			switch {
-			case !oLabelsFoldEq(e.labels, cur):
-				return fmt.Sprintf("FAIL sig=%s/hit/%sother-name entry=%s", entry, hop, s)
-			case e.qtype != r.id.qtype:
-				return fmt.Sprintf("FAIL sig=%s/hit/%sother-type entry=%s", entry, hop, s)
-			case e.class != r.id.class:
-				return fmt.Sprintf("FAIL sig=%s/hit/%sother-class entry=%s", entry, hop, s)
-			case e.cd != r.id.cd:
-				return fmt.Sprintf("FAIL sig=%s/hit/%sother-cd-partition entry=%s", entry, hop, s)
-			}
-			if e.scope.IsValid() {
-				// only clients inside the scope the authority tailored the answer to
-				if i > 0 || !oAudienceOK(e.scope, clientScope) {
-					return fmt.Sprintf("FAIL sig=%s/hit/%sclient-outside-scope entry=%s scope=%s client=%s", entry, hop, s, e.scope, clientScope)
+		if idsS != "" {
+			idl := strings.Split(idsS, ",")
+			for i, s := range idl {
+				e := entries[vlib.Atoi(s)]
+				if e == nil {
+					return "FAIL sig=" + entry + "/hit/unknown-entry id=" + s
 				}
-			}
-			if e.alias == nil {
-				if i != len(strings.Split(idsS, ","))-1 {
-					return fmt.Sprintf("FAIL sig=%s/hit/records-after-terminal entry=%s", entry, s)
+				hop := ""
+				if i > 0 {
+					hop = "chase-hop-"
 				}
-			} else {
-				cur = e.alias
+				switch {
+				case !oLabelsFoldEq(e.labels, cur):
+					return fmt.Sprintf("FAIL sig=%s/hit/%sother-name entry=%s", entry, hop, s)
+				case e.qtype != r.id.qtype:
+					return fmt.Sprintf("FAIL sig=%s/hit/%sother-type entry=%s", entry, hop, s)
+				case e.class != r.id.class:
+					return fmt.Sprintf("FAIL sig=%s/hit/%sother-class entry=%s", entry, hop, s)
+				case e.cd != r.id.cd:
+					return fmt.Sprintf("FAIL sig=%s/hit/%sother-cd-partition entry=%s", entry, hop, s)
+				}
+				if e.scope.IsValid() {
+					// only clients inside the scope the authority tailored the answer to
+					if i > 0 || !oAudienceOK(e.scope, clientScope) {
+						return fmt.Sprintf("FAIL sig=%s/hit/%sclient-outside-scope entry=%s scope=%s client=%s", entry, hop, s, e.scope, clientScope)
+					}
+				}
+				if e.alias == nil {
+					if i != len(idl)-1 {
+						return fmt.Sprintf("FAIL sig=%s/hit/records-after-terminal entry=%s", entry, s)
+					}
+				} else {
+					cur = e.alias
+				}
 			}
 		}
-		return "ok"
-	case strings.HasPrefix(out, "cut"):
-		c := cuts[vlib.Atoi(strings.TrimSpace(strings.TrimPrefix(out, "cut")))]
+		if cutS == "" {
+			return "ok"
+		}
+		c := cuts[vlib.Atoi(cutS)]
 		switch {
 		case c == nil:
 			return "FAIL sig=" + entry + "/cut/unknown-cut"
-		case !oIsSuffix(c.labels, reqLabels):
+		case !oIsSuffix(c.labels, cur):
 			return "FAIL sig=" + entry + "/cut/name-not-below-denied-name"
 		case c.class != r.id.class:
 			return "FAIL sig=" + entry + "/cut/other-class"
@@ -771,6 +850,29 @@ func judge(entry string, out string, r reqSpec, hasECS bool) string {
 			if oLabelsFoldEq(f.labels, reqLabels) && f.qtype == r.id.qtype && f.class == r.id.class &&
 				f.cd == r.id.cd && oAudienceOK(f.scope, clientScope) {
 				return "ok"
+			}
+		}
+		// a failure met while chasing an alias of this question fails the whole question: follow the
+		// stored aliases of this question's partition and accept a failure that covers a name on the way
+		cur := reqLabels
+		for hop := 0; hop < 24; hop++ {
+			var next [][]byte
+			for _, e := range entries {
+				if e.alias != nil && oLabelsFoldEq(e.labels, cur) && e.qtype == r.id.qtype && e.class == r.id.class && e.cd == r.id.cd {
+					next = e.alias
+				}
+			}
+			if next == nil {
+				break
+			}
+			cur = next
+			for _, f := range failures {
+				if f.zone && oIsSuffix(f.labels, cur) && f.class == r.id.class {
+					return "ok"
+				}
+				if !f.zone && oLabelsFoldEq(f.labels, cur) && f.qtype == r.id.qtype && f.class == r.id.class && f.cd == r.id.cd && !f.scope.IsValid() {
+					return "ok"
+				}
 			}
 		}
 		return "FAIL sig=" + entry + "/fail/no-stored-failure-covers-this-question"
@@ -1010,6 +1112,40 @@ func execVer(f []string) vlib.Res {
 			want = oFold(a.wire[i]) == oFold(b.wire[i])
 		}
 		return verdict(got, want, "foldWireNamesEqual")
+	case "walk": // ver walk <p>: the two presentation-name walks (failure zones, cut candidates)
+		n := parseName(f[2])
+		var z, c []string
+		for _, x := range mcache.VerifC03FailureZones(n.pres) {
+			z = append(z, vlib.Hex([]byte(x)))
+		}
+		cn := dns.CanonicalName(n.pres)
+		for off := range dnsname.Suffixes(cn) {
+			c = append(c, vlib.Hex([]byte(cn[off:])))
+		}
+		// oracle: the ancestors of the name the text MEANS, label by label
+		or := "ok"
+		if ls, ok := oPresLabels(n.pres); ok {
+			var wantZ, wantC []string
+			for i := 0; i <= len(ls); i++ {
+				t := strings.ToLower(oRender(ls[i:]))
+				wantZ = append(wantZ, vlib.Hex([]byte(t)))
+				if i < len(ls) {
+					wantC = append(wantC, vlib.Hex([]byte(t)))
+				}
+			}
+			if strings.Join(z, ",") != strings.Join(wantZ, ",") {
+				or = "FAIL sig=ver/walkFailureZones/not-the-ancestors-of-the-name"
+			} else if strings.Join(c, ",") != strings.Join(wantC, ",") {
+				or = "FAIL sig=ver/dnsname.Suffixes/not-the-ancestors-of-the-name"
+			}
+		}
+		j := func(x []string) string {
+			if len(x) == 0 {
+				return "-"
+			}
+			return strings.Join(x, ",")
+		}
+		return vlib.Res{Impl: "z=" + j(z) + " s=" + j(c), Oracle: or, Tags: "nt"}
 	case "norm": // ver norm <scope>
 		p := parseScope(f[2])
 		got := mcache.VerifC03NormalizeKeyScope(p)
@@ -1026,7 +1162,13 @@ func hasECSOpt(r reqSpec) bool { return r.client.IsValid() }
 
 // strictPurge makes the purge oracle demand exactness (no over-deletion at all);
 // see notes/C03.md "Candidate finding".
-func strictPurge() bool { return os.Getenv("C03_STRICT_PURGE") != "" }
+func strictPurge() bool { return os.Getenv("C03_STRICT_PURGE") != "" || strictMode() }
+
+// strictMode turns the tagged-only judgements (see notes/C03.md "Candidate findings") into FAILs.
+func strictMode() bool { return os.Getenv("C03_STRICT") != "" }
+
+// judgeTags collects tags the oracle wants on the op it is judging.
+var judgeTags []string
 
 func execPipe(f []string) vlib.Res {
 	switch f[1] {
@@ -1094,12 +1236,18 @@ func execPipe(f []string) vlib.Res {
 			return vlib.Res{Impl: "none", Oracle: "ok"}
 		}
 		return vlib.Res{Impl: strings.Join(parts, ";"), Oracle: or, Tags: "nt,refresh"}
-	case "ask": // pipe ask <msg|wire> <ident> <client> <id> <scope bits|->   (a miss reaches an upstream that answers)
+	case "ask": // pipe ask <msg|wire> <ident> <client> <id> <scope bits[@fam:addr]|-> [flipcd]   (a miss reaches an upstream that answers)
 		r := reqSpec{id: parseIdent(f[3]), client: parseScope(f[4])}
 		ans := &ansSpec{id: vlib.Atoi(f[5]), scopeBits: -1}
 		if f[6] != "-" {
-			ans.scopeBits = vlib.Atoi(f[6])
+			b, e, has := strings.Cut(f[6], "@")
+			ans.scopeBits = vlib.Atoi(b)
+			if has {
+				ans.echo = parseScope(e + "/0").Addr()
+			}
 		}
+		ans.flipCD = len(f) > 7 && f[7] == "flipcd"
+		judgeTags = nil
 		up.asked = nil
 		out, _, via := serve(f[2], r, ans)
 		if out != "answered" {
@@ -1107,24 +1255,54 @@ func execPipe(f []string) vlib.Res {
 		}
 		rec := up.asked[len(up.asked)-1]
 		al, _ := oPresLabels(rec.q.Name)
-		// the audience the authority (and the operator's floor) allow this answer to have
-		allowed := netip.Prefix{}
+		// the audience the authority (and the operator's floor) allow this answer to have: the network of
+		// the address the authority named, of min(SCOPE, SOURCE, floor of that family) bits
 		// (a SCOPE longer than the address cannot come off the wire — the codec refuses the option — and is not judged)
-		if rec.ecs != nil && ans.scopeBits > 0 && ans.scopeBits <= map[uint16]int{1: 32, 2: 128}[rec.ecs.Family] {
-			bits := min(ans.scopeBits, int(rec.ecs.SourceNetmask))
+		allowed := netip.Prefix{}
+		if rec.ecs != nil && ans.scopeBits > 0 {
+			fam := rec.ecs.Family
 			var a netip.Addr
-			if rec.ecs.Family == 1 {
+			if fam == 1 {
 				a, _ = netip.AddrFromSlice(rec.ecs.Address.To4())
-				bits = min(bits, curCfg.m4)
 			} else {
 				a, _ = netip.AddrFromSlice(rec.ecs.Address.To16())
-				bits = min(bits, curCfg.m6)
 			}
-			if bits > 0 {
-				allowed = netip.PrefixFrom(a, bits).Masked()
+			crossFamily := false
+			if ans.echo.IsValid() {
+				a = ans.echo
+				crossFamily = (fam == 1) != a.Is4()
+			}
+			if ans.scopeBits <= a.BitLen() {
+				bits := ans.scopeBits
+				if a.Is4() {
+					bits = min(bits, curCfg.m4)
+				} else {
+					bits = min(bits, curCfg.m6)
+				}
+				if !crossFamily {
+					bits = min(bits, int(rec.ecs.SourceNetmask))
+				} else {
+					// SOURCE bits of the other family say nothing about this one; the code applies them anyway
+					// ("noticed" in notes/C03.md): judged only in strict mode
+					judgeTags = append(judgeTags, "ecs-cross-family-echo")
+					if !strictMode() {
+						bits = min(bits, int(rec.ecs.SourceNetmask))
+					}
+				}
+				if bits > 0 {
+					allowed = netip.PrefixFrom(a, bits).Masked()
+				}
 			}
 		}
-		se := &storedEntry{labels: al, qtype: rec.q.Qtype, class: rec.q.Qclass, cd: rec.cd, scope: allowed}
+		askedCD := rec.cd
+		if ans.flipCD {
+			// the write-back keys on the RESPONSE's CD bit ("noticed"): in-tree handlers never change it
+			judgeTags = append(judgeTags, "response-cd-differs")
+			if !strictMode() {
+				askedCD = !rec.cd
+			}
+		}
+		se := &storedEntry{labels: al, qtype: rec.q.Qtype, class: rec.q.Qclass, cd: askedCD, scope: allowed}
 		entries[rec.id] = se
 		impl := fmt.Sprintf("ans %d unstored", rec.id)
 		or := "ok"
@@ -1138,7 +1316,7 @@ func execPipe(f []string) vlib.Res {
 			impl = fmt.Sprintf("ans %d key=%s scope=%s", rec.id, u64hex(key), fmtScope(got.Scope))
 			own := xxhash.Sum64(oPreimage(got.Q.Name, got.Q.Qtype, got.Q.Qclass, got.CD, oNorm(got.Scope)))
 			switch {
-			case got.CD != rec.cd:
+			case got.CD != askedCD:
 				or = "FAIL sig=pipe/ask/answer-filed-in-another-cd-partition"
 			case key != own:
 				or = "FAIL sig=pipe/ask/answer-filed-under-a-foreign-key"
@@ -1148,7 +1326,7 @@ func execPipe(f []string) vlib.Res {
 			}
 			return false
 		})
-		return vlib.Res{Impl: impl, Oracle: or, Tags: "nt,via-upstream"}
+		return vlib.Res{Impl: impl, Oracle: or, Tags: strings.Join(append([]string{"nt", "via-upstream", fmt.Sprintf("qt%d", r.id.qtype)}, judgeTags...), ",")}
 	case "set": // pipe set <keyspec> <ident> <id> <alias|->
 		id := parseIdent(f[3])
 		eid := vlib.Atoi(f[4])
@@ -1223,8 +1401,13 @@ func execPipe(f []string) vlib.Res {
 			mcache.VerifC03CutAlias(store(), h, id.n.pres, id.class)
 		}
 		return vlib.Res{Impl: "ok wire=" + vlib.B(wireOK)}
-	case "get": // pipe get <msg|wire|store> <ident(name,t,c,cd)> <client scope|->
+	case "get": // pipe get <msg|wire|store> <ident(name,t,c,cd)> <client scope|-> [tcp|do|tcp+do]
 		r := reqSpec{id: parseIdent(f[3]), client: parseScope(f[4])}
+		fl := ""
+		if len(f) > 5 {
+			r.flavour(f[5])
+			fl = "," + f[5]
+		}
 		var out, via string
 		if f[2] == "store" {
 			m, ok := store().GetWithContext(context.Background(), msgQuery(r))
@@ -1235,8 +1418,9 @@ func execPipe(f []string) vlib.Res {
 		} else {
 			out, _, via = serve(f[2], r, nil)
 		}
+		judgeTags = nil
 		or := judge("pipe/get-"+f[2], out, r, hasECSOpt(r))
-		tags := "nt," + via
+		tags := strings.Join(append([]string{"nt", via, fmt.Sprintf("qt%d", r.id.qtype)}, judgeTags...), ",") + fl
 		return vlib.Res{Impl: out, Oracle: or, Tags: tags}
 	case "lbkv": // pipe lbkv <keyspec> <want ident>
 		w := parseIdent(f[3])
@@ -1414,15 +1598,44 @@ func facts() map[string]any {
 		}
 	}
 	qs, zs, cs := mcache.VerifC03Salts()
+	// strings.EqualFold (Store.Purge's scoped sweep) on ASCII: it must equate every byte with its
+	// ASCII case twin, and no two other ASCII bytes
+	efCovers := true
+	efExtra := []int{}
+	for a := 0; a < 128; a++ {
+		for b := 0; b < 128; b++ {
+			eq := strings.EqualFold(string([]byte{byte(a)}), string([]byte{byte(b)}))
+			same := oFold(byte(a)) == oFold(byte(b))
+			if same && !eq {
+				efCovers = false
+			}
+			if eq && !same {
+				efExtra = append(efExtra, a*256+b)
+			}
+		}
+	}
+	// dns.CanonicalName on single-octet names: where is it not "lower-case A–Z, leave the rest"?
+	var canonOdd []int
+	for b := 0; b < 256; b++ {
+		if b == '.' || b == '\\' {
+			continue
+		}
+		if dns.CanonicalName(string([]byte{byte(b), '.'})) != string([]byte{oFold(byte(b)), '.'}) {
+			canonOdd = append(canonOdd, b)
+		}
+	}
 	return map[string]any{
-		"special_bytes":         special,
-		"decoder_escaped_bytes": decEsc,
-		"decoder_ddd_bytes":     compressRanges(decDDD),
-		"max_wire_name_octets":  icache.VerifC03MaxWireNameOctets(),
-		"failure_question_salt": qs,
-		"failure_zone_salt":     zs,
-		"cut_salt":              cs,
-		"max_wire_chase_hops":   mcache.VerifC03MaxWireChaseHops(),
+		"equalfold_covers_ascii_fold":   efCovers,
+		"equalfold_extra_ascii_pairs":   efExtra,
+		"canonicalname_rewritten_bytes": compressRanges(canonOdd),
+		"special_bytes":                 special,
+		"decoder_escaped_bytes":         decEsc,
+		"decoder_ddd_bytes":             compressRanges(decDDD),
+		"max_wire_name_octets":          icache.VerifC03MaxWireNameOctets(),
+		"failure_question_salt":         qs,
+		"failure_zone_salt":             zs,
+		"cut_salt":                      cs,
+		"max_wire_chase_hops":           mcache.VerifC03MaxWireChaseHops(),
 	}
 }
 
